@@ -376,6 +376,54 @@ def build(E):
         "E8: normpath('/' ++ rel) is the canonical location that pathlib resolves root/rel to in a symlink-free tree (C05's quantifier); the static handler serves root / unquote(path).lstrip('/') (decided under C02)",
         "fingerprint provenance (the fingerprint handed to the chain is the SHA-256 of the DER certificate presented) is decided under C04",
     ]
+    # "what is written is what is enforced" through the command line: `nauyaca serve --config FILE` hands start_server the object
+    # get_certificate_auth_config() built from the file (contract above) - a frame condition on the CLI's local variable, decided
+    # on the AST of nauyaca.__main__:serve._serve: the value passed as certificate_auth_config= is a local that is bound to
+    # config.get_certificate_auth_config(), re-bound only where that value `is None` (no rules in the file), and never mutated.
+    def cli_frame(E):
+        import ast as _ast
+        mod, cls, fn = E.repo.find_nested("nauyaca.__main__:serve", "_serve")
+        calls = [n for n in _ast.walk(fn) if isinstance(n, _ast.Call) and isinstance(n.func, _ast.Name) and n.func.id == "start_server"]
+        if not calls:
+            raise Unsupported("serve._serve does not call start_server")
+        bad = []
+        names = set()
+        for c in calls:
+            kw = {k.arg: k.value for k in c.keywords}
+            v = kw.get("certificate_auth_config")
+            if isinstance(v, _ast.Name):
+                names.add(v.id)
+            elif not (isinstance(v, _ast.Call) and _ast.unparse(v) == "config.get_certificate_auth_config()"):
+                bad.append(f"line {c.lineno}: certificate_auth_config={_ast.unparse(v) if v is not None else 'missing'}")
+        parents = {}
+        for n in _ast.walk(fn):
+            for ch in _ast.iter_child_nodes(n):
+                parents[ch] = n
+        for nm in names:
+            binds = [n for n in _ast.walk(fn) if isinstance(n, _ast.Name) and n.id == nm and isinstance(n.ctx, (_ast.Store, _ast.Del))]
+            primary = 0
+            for b in binds:
+                st = parents.get(b)
+                val = getattr(st, "value", None)
+                if isinstance(st, (_ast.Assign, _ast.AnnAssign)) and val is not None and _ast.unparse(val) == "config.get_certificate_auth_config()":
+                    primary += 1
+                    continue
+                a, guarded = b, False
+                while a in parents and a is not fn:
+                    a = parents[a]
+                    if isinstance(a, _ast.If) and f"{nm} is None" in _ast.unparse(a.test) and "or" not in [type(x).__name__.lower() for x in _ast.walk(a.test) if isinstance(x, _ast.Or)]:
+                        guarded = True
+                        break
+                if not guarded:
+                    bad.append(f"line {b.lineno}: {nm} re-bound where the file's rules may exist")
+            if primary == 0:
+                bad.append(f"{nm} is never bound to config.get_certificate_auth_config()")
+            for n in _ast.walk(fn):
+                if isinstance(n, _ast.Attribute) and isinstance(n.value, _ast.Name) and n.value.id == nm:
+                    bad.append(f"line {n.lineno}: {nm}.{n.attr} (the rule object is read or changed before it is handed on)")
+        return (not bad), ("serve hands start_server the object get_certificate_auth_config() built from the file; it is replaced only when the file has no rules" if not bad else "; ".join(bad[:5]))
+    spec.syntactic.append(("[C05] the command line hands the file's rules to the server unchanged (frame on serve._serve's certificate_auth_config)", cli_frame))
+
     # "the resource actually served": the static handler's own lookup must use the SAME canonical location - percent-decoding with
     # unquote and stripping leading slashes - that the rule matching uses.  That is C02's location clause on the real
     # StaticFileHandler.handle; it is checked here as well, so that a change on either side of the pair is a C05 failure.
